@@ -15,6 +15,7 @@ import (
 	"sigs.k8s.io/kustomize/kyaml/openapi"
 	kyaml "sigs.k8s.io/kustomize/kyaml/yaml"
 	sigsyaml "sigs.k8s.io/yaml"
+	yamlv2 "sigs.k8s.io/yaml/goyaml.v2"
 	yaml "sigs.k8s.io/yaml/goyaml.v3"
 )
 
@@ -193,6 +194,75 @@ func schTerm(s *openapi.ResourceSchema, nodes []*yaml.Node, depth int) string {
 		strings.Join(fields, "; "), el)
 }
 
+// valueHasType20: the oracle behind the model parameter [hastype] — the value, read as an unquoted YAML 1.1
+// scalar by go-yaml v2, is of the OpenAPI type t (what compatibility.go's unexported valueHasType decides).
+func valueHasType20(value, t string) bool {
+	var i1 interface{}
+	if err := yamlv2.Unmarshal([]byte(value), &i1); err != nil {
+		return false
+	}
+	switch i1.(type) {
+	case bool:
+		return t == "boolean"
+	case int, int64, uint64:
+		return t == "integer" || t == "number"
+	case float64:
+		return t == "number"
+	}
+	return false
+}
+
+// scalObs20: what go-yaml v2 (through kyaml) says about one scalar text — compared with KV.Yaml.Resolve11.
+func scalObs20(v string) string {
+	ns := kyaml.IsValueNonString(v)
+	return fmt.Sprintf("(%s, (%s, (%s, (%s, %s))))", coqStr(v), coqBool(ns),
+		coqBool(ns && valueHasType20(v, "boolean")), coqBool(ns && valueHasType20(v, "integer")),
+		coqBool(ns && valueHasType20(v, "number")))
+}
+
+// scalarPool20: adversarial plain-scalar texts around the YAML 1.1 resolution rules (fixed part) plus
+// random strings over the characters of the modelled fragment.
+func scalarPool20(rng *Rng, nRandom int) string {
+	fixed := []string{"", "y", "Y", "yes", "Yes", "YES", "yEs", "n", "N", "no", "No", "NO", "nO", "true", "True", "TRUE", "tRUE",
+		"false", "False", "FALSE", "on", "On", "ON", "oN", "off", "Off", "OFF", "o", "t", "f", "~", "~x", "null", "Null", "NULL",
+		"nULL", "nil", ".nan", ".NaN", ".NAN", ".Nan", ".inf", ".Inf", ".INF", "+.inf", "-.inf", "-.INF", "+.Inf", ".infinity",
+		"inf", "nan", "NaN", "0", "00", "07", "08", "09", "010", "0o7", "0O7", "0o8", "0x", "0x1F", "0X1f", "0xG", "0b1", "0B101",
+		"0b2", "0b", "-0b11", "+0b1", "-0x1F", "+0x1F", "-010", "+010", "1", "-1", "+1", "+", "-", "--1", "++1", "1_000", "_1",
+		"1_", "1__0", "+_1", "0_7", "0_x1", "123456789012345678", "999999999999999999", "-99999999999999999",
+		"0xFFFFFFFFFFFFFFFF", "0x7FFFFFFFFFFFFFFF", "0o1777777777777777", "1.5", "1.", ".5", "-.5", "+.5", ".", "..", "...",
+		"...x", ".5.", "1.5.2", "1e3", "1E3", "1e+3", "1e-3", "1e", "e3", "1e3x", "1.e3", ".5e3", ".5e", ".e5", "1e99", "1e100",
+		".5e10", "9e99", "-9e99", "1_0.5", "1.5_0", ".5_0", "1e1_0", "12abc", "abc12", "a-b", "a.b", "a/b", "a+b", "a~b", "a_b",
+		"-x", "-.x", "-_x", "/x", "+x", "_", "__", "x", "web", "nginx", "v1", "apps/v1", "1.2.3", "1-2", "2001-01-01", "2001-1-1",
+		"2001-13-01", "12345-1", "123-4", "20010101", "1:30", "a b", "a: b", "- x", "[1]", "{a: 1}", "# c", "'1'", "\"1\"", "*x",
+		"&x", "!x", "|", ">", "%x", "@x", "`x", "x#y", "x #y", "<<", "=", "0.0.0.0", "1.0", "-0", "+0", "-0.0", "0e0", "0x0", "0o0",
+		"0b0", "00x1", "0xx1", "0x_1", "1e+", "1e-", "+.e1", "-.5e-2", "Yes1", "on1", "1on", "nULL1", ".inf1", ".nan.", "NO.", "y.",
+		"0777", "0778", "-0777", "-0778", "07_7", "1_2_3", "0o", "0oo7", "0b1_0", "0B_1", "1e0_1", "TRUE1", "True.", "~~", "~1"}
+	obs := []string{}
+	seen := map[string]bool{}
+	add := func(v string) {
+		if !seen[v] {
+			seen[v] = true
+			obs = append(obs, scalObs20(v))
+		}
+	}
+	for _, v := range fixed {
+		add(v)
+	}
+	alphabet := "0123456789" + "0123456789" + "_.+-eExXoObB" + "aAfFyYnNtT~/"
+	if v := os.Getenv("C20_POOL_N"); v != "" {
+		fmt.Sscan(v, &nRandom)
+	}
+	for i := 0; i < nRandom; i++ {
+		n := 1 + rng.Intn(7)
+		b := make([]byte, n)
+		for j := range b {
+			b[j] = alphabet[rng.Intn(len(alphabet))]
+		}
+		add(string(b))
+	}
+	return "(KScalars [" + strings.Join(obs, "; ") + "])"
+}
+
 // typeMeta20 reads kind / apiVersion the way FormatFilter.Filter does (first field of that name, its Value).
 func typeMeta20(n *kyaml.RNode) (kind, api string, ok bool) {
 	cls, _ := protect(func() error {
@@ -328,6 +398,9 @@ func wlOn20(kind, api string) bool {
 func seqKey20(e *yaml.Node, f string) string {
 	if f == "" {
 		return e.Value
+	}
+	if e.Kind != yaml.MappingNode {
+		return "" // only a mapping element carries a sort field
 	}
 	v := ""
 	for a := 0; a+1 < len(e.Content); a += 2 {
@@ -641,13 +714,8 @@ func laws20(c case20) (vs []verdict20, info map[string]string) {
 			info["idempotence"] = "s3-roundtrip-unstable"
 			break
 		}
+		// (both idempotence findings are repaired in /repo: every failure is an unlisted violation)
 		class := "idempotence/other"
-		switch {
-		case f.nestedSeqKeyed:
-			class = "idempotence/nested-seq-in-keyed-list"
-		case f.dupSortFieldBig:
-			class = "idempotence/dup-sortfield-unstable-sort"
-		}
 		vs = append(vs, verdict20{"idempotent", class, "fmt(fmt x) != fmt x\n--- fmt x\n" + y + "--- fmt(fmt x)\n" + z})
 	default:
 		info["idempotence"] = "checked"
@@ -685,12 +753,6 @@ func laws20(c case20) (vs []verdict20, info map[string]string) {
 			}
 			if where, bad := unsorted20(on.YNode(), "", wlOn20(kind, api)); bad {
 				class := "order/not-sorted"
-				switch {
-				case f.nestedSeqKeyed:
-					class = "idempotence/nested-seq-in-keyed-list" // same defect: the key read before the element was formatted
-				case f.dupSortFieldBig:
-					class = "idempotence/dup-sortfield-unstable-sort"
-				}
 				vs = append(vs, verdict20{"canonical_order", class, "formatted output is not in canonical order at " + where})
 			}
 		}
@@ -728,8 +790,6 @@ func laws20(c case20) (vs []verdict20, info map[string]string) {
 					class := "value/output-unreadable"
 					if f.alias && strings.Contains(ey.Error(), "unknown anchor") {
 						class = "reparse/alias-before-anchor"
-					} else if c.UseSchema && strings.Contains(ey.Error(), "cannot decode !!") {
-						class = "schema/mismatched-scalar-retagged"
 					}
 					vs = append(vs, verdict20{"value_preserved", class, "output document does not parse: " + ey.Error()})
 					continue
@@ -1037,6 +1097,18 @@ func schemaLaw20(c case20, y string) (vs []verdict20, nStr, nInt int) {
 					continue
 				}
 				switch sp.typ {
+				case "int-or-string":
+					// FormatNonStringStyle must not touch such a position: the written scalar reads back with the
+					// typed value it had (a number stays a number, a quoted number stays a string)
+					nStr++
+					want, err := jsonValue20("v: " + scalarText20(x) + "\n")
+					if err != nil {
+						break
+					}
+					if wm, ok := want.(map[string]interface{}); ok && !reflect.DeepEqual(wm["v"], site.val) {
+						vs = append(vs, verdict20{"schema_quote", "schema/int-or-string-retyped",
+							fmt.Sprintf("%s: int-or-string scalar %s is read back as %#v (was %#v)", sp.path, scalarText20(x), site.val, wm["v"])})
+					}
 				case "string":
 					nStr++
 					if s, isStr := site.val.(string); !isStr || s != x.Value {
@@ -1045,7 +1117,7 @@ func schemaLaw20(c case20, y string) (vs []verdict20, nStr, nInt int) {
 					}
 				case "integer", "boolean", "number":
 					nInt++
-					if kyaml.IsValueNonString(x.Value) {
+					if kyaml.IsValueNonString(x.Value) && valueHasType20(x.Value, sp.typ) {
 						if _, isStr := site.val.(string); isStr {
 							vs = append(vs, verdict20{"schema_quote", "schema/number-left-quoted",
 								fmt.Sprintf("%s: %s-typed scalar %q is read back as the string %#v", sp.path, sp.typ, x.Value, site.val)})
@@ -1058,6 +1130,18 @@ func schemaLaw20(c case20, y string) (vs []verdict20, nStr, nInt int) {
 	return vs, nStr, nInt
 }
 
+// scalarText20: a scalar as it is written (plain, or re-quoted the way its style says)
+func scalarText20(x *yaml.Node) string {
+	switch {
+	case x.Style&yaml.DoubleQuotedStyle != 0:
+		b, _ := json.Marshal(x.Value)
+		return string(b)
+	case x.Style&yaml.SingleQuotedStyle != 0:
+		return "'" + strings.ReplaceAll(x.Value, "'", "''") + "'"
+	}
+	return x.Value
+}
+
 type schemaSite20 struct {
 	path string // dotted; "*" = every key of a mapping, "[]" = every element
 	typ  string
@@ -1068,7 +1152,13 @@ func schemaSites20(kind, api string) []schemaSite20 {
 	switch {
 	case kind == "ConfigMap" && api == "v1":
 		sites = append(sites, schemaSite20{"data.*", "string"})
+	case kind == "CustomResourceDefinition" && api == "apiextensions.k8s.io/v1":
+		base := "spec.versions.[].schema.openAPIV3Schema.properties.*."
+		sites = append(sites, schemaSite20{base + "minimum", "number"}, schemaSite20{base + "maximum", "number"},
+			schemaSite20{base + "multipleOf", "number"}, schemaSite20{base + "maxLength", "integer"},
+			schemaSite20{base + "exclusiveMinimum", "boolean"}, schemaSite20{base + "description", "string"})
 	case kind == "Service" && api == "v1":
+		sites = append(sites, schemaSite20{"spec.ports.[].targetPort", "int-or-string"})
 		sites = append(sites, schemaSite20{"spec.ports.[].port", "integer"}, schemaSite20{"spec.ports.[].name", "string"},
 			schemaSite20{"spec.publishNotReadyAddresses", "boolean"}, schemaSite20{"spec.sessionAffinity", "string"})
 	case kind == "Secret" && api == "v1":
@@ -1076,6 +1166,10 @@ func schemaSites20(kind, api string) []schemaSite20 {
 	case (kind == "Deployment" || kind == "StatefulSet") && api == "apps/v1":
 		sites = append(sites,
 			schemaSite20{"spec.replicas", "integer"},
+			schemaSite20{"spec.strategy.rollingUpdate.maxSurge", "int-or-string"},
+			schemaSite20{"spec.strategy.rollingUpdate.maxUnavailable", "int-or-string"},
+			schemaSite20{"spec.template.spec.containers.[].livenessProbe.httpGet.port", "int-or-string"},
+			schemaSite20{"spec.template.spec.containers.[].readinessProbe.httpGet.port", "int-or-string"},
 			schemaSite20{"spec.paused", "boolean"},
 			schemaSite20{"spec.minReadySeconds", "integer"},
 			schemaSite20{"spec.template.spec.hostNetwork", "boolean"},
@@ -1122,7 +1216,7 @@ func siteType20(s *openapi.ResourceSchema) string {
 	}
 	t := s.Schema.Type[0]
 	if t == "string" && s.Schema.Format == "int-or-string" {
-		return ""
+		return "int-or-string"
 	}
 	return t
 }
@@ -1268,10 +1362,8 @@ func runImpl20(c case20, withWritten bool) result20 {
 		return res
 	}
 	res.facts = factsOf20(nodes)
-	if res.facts.bigEquiv {
-		// sort.Sort is not stable beyond 12 elements: the order among equal sort keys is not claimed
-		res.skipWhy = "equal-sort-keys-beyond-12"
-	}
+	// (the formatter sorts with sort.Stable: the model's stable sort is exact for every size, equal sort
+	// keys included — nothing is skipped for that reason any more)
 	// input terms + schema projection + nonstr table
 	vals := map[string]bool{}
 	docs := []string{}
@@ -1287,10 +1379,16 @@ func runImpl20(c case20, withWritten bool) result20 {
 		scalarValues(n.YNode(), vals)
 	}
 	nonstr := []string{}
+	hastype := []string{}
 	if c.UseSchema {
 		for _, s := range sortedKeys(vals) {
 			if kyaml.IsValueNonString(s) {
 				nonstr = append(nonstr, s)
+				for _, t := range []string{"boolean", "integer", "number"} {
+					if valueHasType20(s, t) {
+						hastype = append(hastype, fmt.Sprintf("(%s, %s)", coqStr(s), coqStr(t)))
+					}
+				}
 			}
 		}
 	}
@@ -1402,8 +1500,13 @@ func runImpl20(c case20, withWritten bool) result20 {
 	if res.skipWhy != "" {
 		return res
 	}
-	res.term = fmt.Sprintf("(KDocs [%s] %s %s %s %s %s %s)", strings.Join(docs, "; "), coqStrList(nonstr), cls, outTerm, written,
-		coqStrList(dcIn), coqStrList(dcOut))
+	scal := []string{}
+	for _, v := range sortedKeys(vals) {
+		scal = append(scal, scalObs20(v))
+	}
+	res.term = fmt.Sprintf("(KDocs [%s] %s [%s] %s %s %s %s %s [%s])", strings.Join(docs, "; "), coqStrList(nonstr),
+		strings.Join(hastype, "; "), cls, outTerm, written,
+		coqStrList(dcIn), coqStrList(dcOut), strings.Join(scal, "; "))
 	res.ok = true
 	return res
 }
@@ -1596,6 +1699,11 @@ func runC20(r *Run, rng *Rng, tier string) error {
 	rng = rng.Fork().Fork()
 	r.shard = 30 // case terms are large (three node trees with comments per case): many small shards, evaluated in parallel
 	r.AddCase(tableCase20(), map[string]string{"kind": "table"}, true)
+	nPool := 400
+	if tier == "thorough" {
+		nPool = 8000
+	}
+	r.AddCase(scalarPool20(rng.Fork(), nPool), map[string]string{"kind": "scalar-resolution-pool"}, true)
 	for _, c := range loadCorpus20() {
 		runOne20(r, c, true, "corpus")
 	}
